@@ -299,6 +299,28 @@ func c22RunePath(c *Ctx, p *Prog, pk *packages.Package) {
 		if runesName == "" {
 			problems = append(problems, "no statement of the loop body appends the decoded rune "+rID.Name+" on every iteration")
 		}
+		// (b') both lists start empty: a pre-sized list (`make([]rune, n)` / `make([]rune, 1, n)`) puts zero elements in
+		// front of the decoded ones and every index the differ reports is off by that many
+		for _, s := range fd.Body.List {
+			if s == ast.Stmt(loop) {
+				break
+			}
+			as, ok := s.(*ast.AssignStmt)
+			if !ok || len(as.Lhs) != len(as.Rhs) {
+				continue
+			}
+			for i, l := range as.Lhs {
+				id, ok := l.(*ast.Ident)
+				if !ok || (id.Name != runesName && id.Name != offsName) {
+					continue
+				}
+				if call, ok := ast.Unparen(as.Rhs[i]).(*ast.CallExpr); ok && types.ExprString(call.Fun) == "make" && len(call.Args) >= 2 {
+					if v, isConst := constIntOf(info, call.Args[1]); !isConst || v != 0 {
+						problems = append(problems, id.Name+" starts with `"+types.ExprString(call)+"`, not empty: the elements it already holds sit in front of the decoded ones")
+					}
+				}
+			}
+		}
 		// (c) the table ends with len(text)
 		if offsName != "" {
 			final := false
